@@ -44,10 +44,15 @@ impl ChildWorker {
         let sent = writeln!(stdin, "{}", line).and_then(|_| stdin.flush());
         let mut hung = false;
         if sent.is_ok() {
-            match rx.recv_timeout(std::time::Duration::from_secs(limit)) {
-                Ok(reply) => { if let Ok(o) = serde_json::from_str::<Outcome>(reply.trim_end()) { return o; } },
-                Err(std::sync::mpsc::RecvTimeoutError::Timeout) => { hung = true; },
-                Err(_) => {},
+            loop {
+                match rx.recv_timeout(std::time::Duration::from_secs(limit)) {
+                    // A heartbeat: the scenario is slow but advancing; wait on.
+                    Ok(reply) if reply.trim_end() == "H" => continue,
+                    Ok(reply) => { if let Ok(o) = serde_json::from_str::<Outcome>(reply.trim_end()) { return o; } },
+                    Err(std::sync::mpsc::RecvTimeoutError::Timeout) => { hung = true; },
+                    Err(_) => {},
+                }
+                break;
             }
         }
         // The child died, hung, or produced garbage: collect its status and clean up after it.
@@ -87,6 +92,7 @@ fn crash_site(scn: &Scenario) -> (&'static str, &'static str) {
 
 /// Child side: one JSON scenario per input line, one JSON outcome per output line.
 pub fn worker_main(prop: &str) {
+    crate::core::start_heartbeat();
     let stdin = std::io::stdin();
     let stdout = std::io::stdout();
     for line in stdin.lock().lines() {
